@@ -17,6 +17,7 @@ ENGINES = {
     "e_customlexer": ("e_customlexer.cpp", "clang++", BASE + SAN, ["-lrapidcheck", "-lpthread"]),
     "e_threads": ("e_threads.cpp", "clang++", BASE + SAN, ["-lrapidcheck", "-lpthread"]),
     "e_threads_tsan": ("e_threads.cpp", "clang++", BASE + ["-fsanitize=thread"], ["-lrapidcheck", "-lpthread"]),
+    "e_caps": ("e_caps.cpp", "clang++", BASE + SAN + ["-DCTPG_VERIF_BOUNDS"], ["-lrapidcheck", "-lpthread"]),
     "e_helpers": ("e_helpers.cpp", "clang++", ["-std=gnu++17", "-O0", "-DCTPG_VERIF", "-fbracket-depth=1024"], ["-lrapidcheck", "-lpthread"]),
     "e_lexer": ("e_lexer.cpp", "clang++", BASE + SAN + ["-DCTPG_VERIF_BOUNDS"], ["-lrapidcheck", "-lpthread"]),
     "e_regex": ("e_regex.cpp", "clang++", BASE + SAN + ["-DCTPG_VERIF_BOUNDS"], ["-lrapidcheck", "-lpthread"]),
